@@ -61,6 +61,7 @@ def jac_to_aff(p):
 
 
 CUR_R = [None]
+WITNESS_MOD = [None]     # prime of the concrete field the replay will run in (set by harnesses over Z)
 
 
 def lits_summary(R):
@@ -74,7 +75,7 @@ def _attach_witness(replay):
     R = CUR_R[0]
     if R is None or "point" in replay.get("args", {}):
         return replay
-    return {"kind": replay["kind"], "args": dict(replay["args"], point=R.witness(),
+    return {"kind": replay["kind"], "args": dict(replay["args"], point=R.witness(WITNESS_MOD[0]),
                                                  zero_lits=[core._short(c, 200) for l in R.lits if l[1] for c in l[0]])}
 
 
